@@ -16,7 +16,7 @@ git -C $wt apply $src/patch.diff || { echo "RESULT $id patch-does-not-apply"; ex
 d1=$(run_demo)
 msg=$(grep -v condarc /tmp/demo_$id.out | tail -2 | tr '\n' ' ')
 out=$(mktemp /var/tmp/suite.XXXXXX.xml)
-(cd $wt && timeout 3000 /venv/bin/python -m pytest -q -p no:cacheprovider --timeout=900 --continue-on-collection-errors -n 6 --junitxml=$out >/dev/null 2>&1)
+(cd $wt && timeout 3000 /venv/bin/python -m pytest -q -p no:cacheprovider --timeout=900 --continue-on-collection-errors -n ${NW:-7} --junitxml=$out >/dev/null 2>&1)
 suite=$(/venv/bin/python - $out <<'PY'
 import json, sys, xml.etree.ElementTree as ET
 base = set(json.load(open('/root/.vp/BASELINE.json'))['stable_pass'])
